@@ -42,11 +42,9 @@ def cache_setup(N, nr, nt, cd=1, cg=1):
 def shapes(tier):
     fam = [(5, 4, 2), (6, 6, 3), (5, 8, 0), (6, 4, 6)]
     if tier != "quick":
-        for nr in (5, 6, 7, 8):
-            for nt in (4, 6, 8, 12):
-                for nsc in range(0, nr + 1):
-                    if (nr, nt, nsc) not in fam and nr * nt <= 64:
-                        fam.append((nr, nt, nsc))
+        # a wider family (every branch class again on other sizes: no circles / only circles / odd and even splits, ntheta mod 3 and 4);
+        # the exhaustive sweep over all splits that was planned first needs many hours and was dropped
+        fam += [(5, 6, 1), (6, 8, 3), (7, 4, 4), (8, 4, 2), (5, 12, 2), (7, 6, 7), (6, 6, 0), (8, 8, 5), (5, 10, 3), (7, 8, 1)]
     return fam
 
 
